@@ -49,7 +49,7 @@ CHECKS = {
              "or cold consensus cache, historical views opened in between; non-trivial = schedule shows >=2 of {batch>1, "
              "gossip-before-momentum, late gossip, restart, warm views, accepted block with ack depth>0}",
         assumptions=HIST_ASSUME,
-        jobs=[dict(test="TestC02", quick=T(8, 10, 40), thorough=T(16, 150, 70, 3000))],
+        jobs=[dict(test="TestC02", quick=T(8, 25, 40), thorough=T(16, 150, 70, 3000))],
     ),
     "C04": dict(
         level="exploration",
@@ -66,8 +66,8 @@ CHECKS = {
              ">=1 rejected competing receive AND a contract with >=3 confirmed sends from >=2 accounts (TestC04), or a "
              "reorganisation of depth >=2 (TestC04Reorg)",
         assumptions=HIST_ASSUME,
-        jobs=[dict(test="TestC04", quick=T(6, 20, 45), thorough=T(12, 200, 80, 3000)),
-              dict(test="TestC04Reorg", quick=T(2, 12), thorough=T(4, 150, 0, 3000))],
+        jobs=[dict(test="TestC04", quick=T(6, 35, 45), thorough=T(12, 200, 80, 3000)),
+              dict(test="TestC04Reorg", quick=T(2, 30), thorough=T(4, 150, 0, 3000))],
     ),
     "C06": dict(
         level="exploration",
@@ -83,8 +83,8 @@ CHECKS = {
         rule="pair of competing branches generated by the C01 grammar on two producing nodes; non-trivial = fork depth >=2 with "
              ">=1 historical view of a common ancestor opened before the switch (TestC06), or an add+rollback round (TestC06Rollback)",
         assumptions=HIST_ASSUME,
-        jobs=[dict(test="TestC06", quick=T(6, 10), thorough=T(12, 150, 0, 3000)),
-              dict(test="TestC06Rollback", quick=T(2, 10), thorough=T(4, 150, 0, 3000))],
+        jobs=[dict(test="TestC06", quick=T(6, 25), thorough=T(12, 150, 0, 3000)),
+              dict(test="TestC06Rollback", quick=T(2, 30), thorough=T(4, 150, 0, 3000))],
     ),
     "C07": dict(
         level="exploration",
@@ -103,9 +103,9 @@ CHECKS = {
         assumptions=["opening a view is serialised with rollback by the caller (as momentumPool.changes does); reads on open "
                      "views are not", "reader/writer interleavings are sampled by the Go scheduler under -race, not enumerated"],
         jobs=[
-            dict(test="TestC07Ldb", quick=T(4, 250, 40), thorough=T(10, 4000, 80, 3000)),
-            dict(test="TestC07Mem", quick=T(2, 400, 40), thorough=T(4, 8000, 80, 3000)),
-            dict(test="TestC07Conc", race=True, quick=T(2, 12), thorough=T(8, 150, 0, 3000)),
+            dict(test="TestC07Ldb", quick=T(4, 600, 40), thorough=T(10, 4000, 80, 3000)),
+            dict(test="TestC07Mem", quick=T(2, 1000, 40), thorough=T(4, 8000, 80, 3000)),
+            dict(test="TestC07Conc", race=True, quick=T(2, 25), thorough=T(8, 150, 0, 3000)),
         ],
     ),
     "C16": dict(
@@ -147,8 +147,8 @@ CHECKS = {
              "reference accepts the pair). (b) C01 grammar + custom-plasma blocks; non-trivial = case where a checked block had "
              ">=2 unconfirmed predecessors and >=1 custom-plasma block was offered",
         assumptions=HIST_ASSUME,
-        jobs=[dict(test="TestC12Pow", quick=T(4, 12), thorough=T(8, 400, 0, 3000)),
-              dict(test="TestC12Plasma", quick=T(4, 20, 50), thorough=T(8, 200, 80, 3000))],
+        jobs=[dict(test="TestC12Pow", quick=T(4, 25), thorough=T(8, 400, 0, 3000)),
+              dict(test="TestC12Plasma", quick=T(4, 40, 50), thorough=T(8, 200, 80, 3000))],
     ),
     "C13": dict(
         level="exploration",
@@ -169,8 +169,8 @@ CHECKS = {
              "content entry. (b) case = world + 1-3 rounds of unconfirmed blocks x variant kinds (quick: 3 kinds per block, "
              "thorough: all 16); non-trivial item = (variant kind, block type) accepted by the follower's pool",
         assumptions=HIST_ASSUME,
-        jobs=[dict(test="TestC13Codec", quick=T(2, 3000), thorough=T(8, 40000, 0, 3000)),
-              dict(test="TestC13Variants", quick=T(6, 8), thorough=T(8, 120, 0, 3000)),
+        jobs=[dict(test="TestC13Codec", quick=T(2, 10000), thorough=T(8, 40000, 0, 3000)),
+              dict(test="TestC13Variants", quick=T(6, 20), thorough=T(8, 120, 0, 3000)),
               F("FuzzC13Proto", 90), F("FuzzC13Rlp", 90), F("FuzzC13Json", 90)],
     ),
     "C03": dict(
@@ -191,7 +191,7 @@ CHECKS = {
         rule="case = world + 1-8 states x valid base blocks x 24-60 mutated candidates; non-trivial item = (mutation, base type, "
              "repair mode) whose candidate passes hash and signature checks, i.e. reaches the contextual verifier",
         assumptions=HIST_ASSUME,
-        jobs=[dict(test="TestC03", quick=T(8, 10), thorough=T(16, 200, 0, 3000))],
+        jobs=[dict(test="TestC03", quick=T(8, 60), thorough=T(16, 200, 0, 3000))],
     ),
     "C05": dict(
         level="exploration",
@@ -213,9 +213,9 @@ CHECKS = {
         rule="(a) non-trivial item = candidate kind that still carries a valid signature; (b) non-trivial = chain spanning >=3 ticks "
              "evaluated on >=2 nodes with different cache state (always 3 here)",
         assumptions=HIST_ASSUME,
-        jobs=[dict(test="TestC05Election", quick=T(4, 30), thorough=T(8, 150, 0, 3000)),
-              dict(test="TestC05Candidates", quick=T(3, 25), thorough=T(6, 120, 0, 3000)),
-              dict(test="TestC05Reorg", quick=T(1, 20), thorough=T(2, 100, 0, 3000))],
+        jobs=[dict(test="TestC05Election", quick=T(4, 60), thorough=T(8, 150, 0, 3000)),
+              dict(test="TestC05Candidates", quick=T(3, 50), thorough=T(6, 120, 0, 3000)),
+              dict(test="TestC05Reorg", quick=T(1, 40), thorough=T(2, 100, 0, 3000))],
     ),
     "C09": dict(
         level="exploration",
@@ -234,7 +234,7 @@ CHECKS = {
              "received at/after a spork enforcement height; accepted-method histogram in counters",
         assumptions=HIST_ASSUME,
         death_is_violation=True,
-        jobs=[dict(test="TestC09", quick=T(8, 14, 60), thorough=T(16, 300, 90, 3000))],
+        jobs=[dict(test="TestC09", quick=T(8, 30, 60), thorough=T(16, 300, 90, 3000))],
     ),
     "C17": dict(
         level="exploration",
@@ -252,8 +252,8 @@ CHECKS = {
         technique="model-based stateful property testing (rapid); differential probes on two nodes; child-process exit-status check",
         rule="non-trivial item = (probe, table level, accepted?) evaluated within +-2 of an enforcement height; halt cases are all non-trivial",
         assumptions=HIST_ASSUME,
-        jobs=[dict(test="TestC17", quick=T(6, 8, 60), thorough=T(12, 150, 80, 3000)),
-              dict(test="TestC17Halt", quick=T(2, 2), thorough=T(4, 30, 0, 3000))],
+        jobs=[dict(test="TestC17", quick=T(6, 16, 60), thorough=T(12, 150, 80, 3000)),
+              dict(test="TestC17Halt", quick=T(2, 4), thorough=T(4, 30, 0, 3000))],
     ),
     "C20": dict(
         level="exploration",
@@ -274,9 +274,9 @@ CHECKS = {
              "a variant, or paired with a different config object",
         assumptions=["strings are valid UTF-8 (as decoded from a JSON file); amounts non-negative and < 2^112",
                      "an activated spork this binary does not implement gets enforcement height >= 100000 (otherwise chain.Init exits)"],
-        jobs=[dict(test="TestC20Determinism", pkg="p20", quick=T(3, 60), thorough=T(6, 600, 0, 3000)),
-              dict(test="TestC20Validation", pkg="p20", quick=T(3, 200), thorough=T(5, 2000, 0, 3000)),
-              dict(test="TestC20DatabaseMismatch", pkg="p20", quick=T(2, 100), thorough=T(5, 1000, 0, 3000))],
+        jobs=[dict(test="TestC20Determinism", pkg="p20", quick=T(3, 150), thorough=T(6, 600, 0, 3000)),
+              dict(test="TestC20Validation", pkg="p20", quick=T(3, 500), thorough=T(5, 2000, 0, 3000)),
+              dict(test="TestC20DatabaseMismatch", pkg="p20", quick=T(2, 250), thorough=T(5, 1000, 0, 3000))],
     ),
     "C19": dict(
         level="exploration",
@@ -363,7 +363,7 @@ CHECKS = {
         rule="non-trivial = history with >=2 rewarded epochs for >=2 contracts, >=1 long slot skip (missed momentums) and >=1 "
              "successful collect",
         assumptions=HIST_ASSUME,
-        jobs=[dict(test="TestC11", quick=T(8, 6, 70), thorough=T(16, 120, 100, 3000))],
+        jobs=[dict(test="TestC11", quick=T(8, 14, 70), thorough=T(16, 120, 100, 3000))],
     ),
     "C14": dict(
         level="exploration",
@@ -386,10 +386,10 @@ CHECKS = {
         rule="TestC14: non-trivial = replacements decided by BOTH tie-break levels and >=1 momentum confirming other blocks; "
              "Order/Schedule cases are non-trivial when they reach their comparison; Limit when >100 blocks are pooled",
         assumptions=HIST_ASSUME,
-        jobs=[dict(test="TestC14", quick=T(4, 12, 60), thorough=T(8, 200, 100, 3000)),
+        jobs=[dict(test="TestC14", quick=T(4, 25, 60), thorough=T(8, 200, 100, 3000)),
               dict(test="TestC14Limit", quick=T(1, 6), thorough=T(2, 80, 0, 3000)),
               dict(test="TestC14Order", quick=T(1, 60), thorough=T(2, 1500, 0, 3000)),
-              dict(test="TestC14Schedule", quick=T(2, 15), thorough=T(4, 250, 0, 3000)),
+              dict(test="TestC14Schedule", quick=T(2, 40), thorough=T(4, 250, 0, 3000)),
               dict(test="TestC14Race", race=True, quick=T(2, 3), thorough=T(8, 40, 0, 3000))],
     ),
     "C18": dict(
